@@ -186,7 +186,7 @@ func (v *Verifier) verifyFunc(key string, splitName, splitCase string, splitCond
 			pcs = append(pcs, rs.pcTerm())
 		}
 		c.addObl(&Obligation{Name: c.key + "/vacuity", Kind: "vacuity", Descr: "precondition and path assumptions are satisfiable (planted false must fail)",
-			Hyps: nil, Goal: tNot(tOr(pcs...)), Expect: "notunsat"})
+			Hyps: nil, Goal: tNot(tOr(pcs...)), Expect: "notunsat", Timeout: 3})
 	}
 	res.Obls = c.obls
 	res.Warns = c.warns
@@ -279,7 +279,7 @@ func (c *FnCtx) frameObligations(rs *State, ri int) {
 	if c.con.ModAll {
 		return
 	}
-	allowed := map[string]string{} // heap key -> ref term allowed to change ("" = any)
+	allowed := map[string][]string{} // heap key -> refs allowed to change
 	envp := c.specEnvAt(c.pre, c.fd.Body.Rbrace)
 	ghostsAllowed := map[string]bool{}
 	for _, m := range c.con.Modifies {
@@ -297,7 +297,23 @@ func (c *FnCtx) frameObligations(rs *State, ri int) {
 					ref = v.Box
 				}
 				for k := range ms.heap {
-					allowed[k] = ref
+					allowed[k] = append(allowed[k], ref)
+				}
+			}
+		case *ast.StarExpr:
+			p := c.specEval(envp, x.X)
+			if p.Typ != nil {
+				if pt, ok := p.Typ.Underlying().(*types.Pointer); ok {
+					if es := c.sortOf(pt.Elem()); es != SNone {
+						k := "ptr." + sortName(es)
+						allowed[k] = append(allowed[k], p.T)
+					} else {
+						ms := newModSet()
+						c.addHeapKeys(typeShortName(pt.Elem()), "", pt.Elem(), ms)
+						for k := range ms.heap {
+							allowed[k] = append(allowed[k], p.T)
+						}
+					}
 				}
 			}
 		case *ast.SelectorExpr:
@@ -309,7 +325,7 @@ func (c *FnCtx) frameObligations(rs *State, ri int) {
 							ms := newModSet()
 							c.addHeapKeys(typeShortName(base.Typ), f.Name(), f.Type(), ms)
 							for k := range ms.heap {
-								allowed[k] = base.T
+								allowed[k] = append(allowed[k], base.T)
 							}
 						}
 					}
@@ -328,8 +344,12 @@ func (c *FnCtx) frameObligations(rs *State, ri int) {
 			continue
 		}
 		var goal string
-		if ref, ok := allowed[k]; ok {
-			goal = fmt.Sprintf("(forall ((r Int)) (=> (and (not (= r %s)) (allocated0 r)) (= (select %s r) (select %s r))))", ref, cur, pre)
+		if refs, ok := allowed[k]; ok {
+			var ne []string
+			for _, ref := range refs {
+				ne = append(ne, tNot(tEq("r", ref)))
+			}
+			goal = fmt.Sprintf("(forall ((r Int)) (=> (and %s (allocated0 r)) (= (select %s r) (select %s r))))", tAnd(ne...), cur, pre)
 		} else {
 			goal = fmt.Sprintf("(forall ((r Int)) (=> (allocated0 r) (= (select %s r) (select %s r))))", cur, pre)
 		}
@@ -375,6 +395,11 @@ func (c *FnCtx) prelude() string {
 		}
 		axs = append(axs, "; "+kind+" "+ax.Name+"\n(assert "+c.specBool(env, ax.Clause.Expr)+")")
 		c.usedAxioms = append(c.usedAxioms, ax.Name)
+	}
+	for _, so := range append([]string(nil), c.decls.sortsO...) {
+		if so == "Str" || strings.HasPrefix(so, "Seq_") {
+			c.declSeq(Sort(so))
+		}
 	}
 	b.WriteString("(set-option :produce-models true)\n(set-logic ALL)\n")
 	b.WriteString(c.decls.text())
